@@ -673,6 +673,9 @@ func readRewrite(call caller, key string, st *ref.StructT, b []byte, who, what s
 		return nil, fmt.Errorf("%s Read of %s: object does not fit the schema: %v", who, st.Name, err)
 	}
 	rb := &readBack{value: got, reerr: resp["reerr"], repanic: resp["panic"]}
+	if resp["panic"] != nil && resp["panic_stack"] != nil {
+		rb.repanic = fmt.Sprintf("%v [%v]", resp["panic"], resp["panic_stack"])
+	}
 	if s, ok := resp["rehex"].(string); ok {
 		rb.rehex, _ = hex.DecodeString(s)
 	} else if rb.repanic == nil {
